@@ -51,6 +51,34 @@ def decompress_by_name(name, data):
         return None
 
 
+def stream_prefix(name, data):
+    """the text a line-by-line reader gets out of a corrupt file before the codec or the UTF-8 decoder fails"""
+    import io
+    ext = os.path.splitext(name)[1]
+    raw = io.BytesIO(data)
+    try:
+        if ext == '.gz':
+            f = gzip.GzipFile(fileobj=raw, mode='rb', filename='', mtime=0)
+        elif ext == '.bz2':
+            f = bz2.BZ2File(raw, mode='rb')
+        elif ext == '.lzma':
+            f = lzma.LZMAFile(raw, format=lzma.FORMAT_ALONE, mode='rb')
+        elif ext == '.xz':
+            f = lzma.LZMAFile(raw, format=lzma.FORMAT_XZ, mode='rb')
+        else:
+            f = raw
+        t = io.TextIOWrapper(f, encoding='utf8')
+    except Exception:
+        return ''
+    out = []
+    try:
+        for line in t:
+            out.append(line)
+    except Exception:
+        pass
+    return ''.join(out)
+
+
 def digests_of(data, names):
     return {n: hashlib.new(GLEP[n], data).hexdigest() for n in names if n in AVAILABLE}
 
@@ -143,7 +171,11 @@ def world_of(root, hash_names, manifest_paths=(), max_repeat=2):
             m = None
             if is_manifest_name(os.path.basename(path)) or os.path.normpath(rel) in manifest_paths:
                 t = decompress_by_name(os.path.basename(path), data)
-                m = ['c'] if t is None else ['t', cps(t)]
+                if t is None:
+                    pre = stream_prefix(os.path.basename(path), data)
+                    m = ['b', cps(pre)] if pre else ['c']
+                else:
+                    m = ['t', cps(t)]
             return ['f', {'dev': st.st_dev, 'stsize': st.st_size, 'size': len(data), 'mtime': st.st_mtime_ns,
                           'dig': [[cps(k), cps(v)] for k, v in digests_of(data, hash_names).items()], 'm': m}]
         return ['s', st.st_dev]
